@@ -12,7 +12,7 @@ pub const DEF: PropDef = PropDef {
     run,
     replay,
     level: "exploration",
-    rule: "enumeration: handshake strings x DH in {25519 (32-byte keys), P256 (65-byte keys)} x transport mode (stateful / stateless) x variant (plain; an unneeded, different remote key supplied up front; a tampered copy of the carrying message delivered first; a first read of every psk-carrying message that fails for a missing PSK, with and without an extra supplied key); get_remote_static observed on both roles after build, after every message and after conversion. Expected value derived from the harness's own pattern table and the peer's private key via the reference DH: pre-shared -> the peer's full public key from build on; transmitted -> absent before (if none supplied), the peer's full public key from the successful read of the carrying message on; identical after conversion; absent when never conveyed and not supplied. Non-trivial = at least one role is given the peer's static key by the pattern; distinct by (name, suite, mode, variant)",
+    rule: "enumeration: handshake strings x DH in {25519 (32-byte keys), P256 (65-byte keys)} x transport mode (stateful / stateless) x variant (plain; an unneeded, different remote key supplied up front; a tampered copy of the carrying message delivered first; a first read of every psk-carrying message that fails for a missing PSK, with and without an extra supplied key; writes that fail for lack of room before every message in the variants with an extra key); get_remote_static observed on both roles after build, after every message and after conversion. Expected value derived from the harness's own pattern table and the peer's private key via the reference DH: pre-shared -> the peer's full public key from build on; transmitted -> absent before (if none supplied), the peer's full public key from the successful read of the carrying message on; identical after conversion; absent when never conveyed and not supplied. Non-trivial = at least one role is given the peer's static key by the pattern; distinct by (name, suite, mode, variant)",
     technique: "differential observation against a reference key schedule (pattern table + independent DH), exhaustive over names x DH x roles x observation points",
     assumptions: &["when the caller supplies a remote key the pattern does not need, nothing is asserted for the window before the transmitted key arrives"],
     panic_is_violation: false,
@@ -123,6 +123,26 @@ fn oracle(c: &Case, acc: &mut Acc) -> CaseResult {
                     w.set_psk(*n as usize, &spec.psk(*n)).map_err(|x| Fail::setup(format!("{name}: set_psk: {}", e(&x))))?;
                 }
             }
+        }
+        if c.variant % 2 == 1 || c.variant == 6 {
+            // a WRITE that fails (output buffer too small, at two sizes) must not change what the
+            // writer reports about its peer either
+            let before = w.get_remote_static().map(|x| x.to_vec());
+            for small in [0usize, lay[idx].overhead.saturating_sub(1)] {
+                let mut tiny = vec![0u8; small];
+                if w.write_message(&payload, &mut tiny).is_ok() {
+                    return Err(Fail::setup(format!("{name}: write {idx} into a {small}-byte buffer succeeded")));
+                }
+            }
+            let after = w.get_remote_static().map(|x| x.to_vec());
+            ensure!(
+                before == after,
+                "{name}: {} after a FAILED write of message {idx}: get_remote_static() changed from {} to {}",
+                if i_sends { "initiator" } else { "responder" },
+                before.as_ref().map_or("None".into(), |g| hexs(g)),
+                after.as_ref().map_or("None".into(), |g| hexs(g))
+            );
+            acc.label("failed_write_checked");
         }
         let msg = hs_write(w, &payload, 65535).map_err(|x| Fail::setup(format!("{name}: write {idx}: {}", e(&x))))?;
         if c.variant == 5 || c.variant == 6 {
